@@ -27,6 +27,7 @@ RULE = (
     "random programs of 3-14 driver commands {spawn (start_task with/without task_status, start_task_soon; from owner task / unrelated context / "
     "sync callback / another spawned task; duration on a .125 grid; returns or raises), cancel(handle), wait_finished(handle) in a waiter task, "
     "sleep, yields}; exception handler None or returning True/False/None/1/0; root or nested owner; the owner block ends with 0..n tasks running; "
+    "Factory started by method, module shortcut or from inside a component, in a context with or without resources; tasks whose clean-up raises while cancelled through the handle; callable forms as in C08. "
     "optional spawn attempt after the factory finished. Non-trivial: >= 2 tasks alive at some handle-set check or the owner left with tasks "
     "running; distinct = interleaving signature."
 )
